@@ -21,6 +21,7 @@ import YashModel.Expansion.ReadLemmas
 import YashModel.Expansion.PipelineLemmas
 import YashModel.Expansion.QuoteLemmas
 import YashModel.Expansion.TrimLemmas
+import YashModel.Expansion.LexLemmas
 namespace YashModel.Expansion
 
 /-! ## Field splitting -/
@@ -307,10 +308,11 @@ theorem lex_hash_forms :
   ⟨rfl, rfl, rfl, rfl, rfl, rfl, rfl, rfl, rfl, rfl, rfl, rfl, rfl, rfl, rfl, rfl⟩
 
 /-- `${p:-w}` versus `${p-w}` (and `= ? +`): after any parameter, an optional colon followed by one
-    of the four switch symbols starts a switch whose condition is "unset or empty" exactly when the
+    of the switch symbols (the characters `suffix_modifier` dispatches to `switch`: the generated table,
+    `+ - = ?` in the current code) starts a switch whose condition is "unset or empty" exactly when the
     colon is present, and whose word runs to the first closing brace — for every word without `}`. -/
 theorem lexSuffix_switch (colon : Bool) (act : Char) (w rest : List Char)
-    (ha : act = '+' ∨ act = '-' ∨ act = '=' ∨ act = '?') (hw : ∀ c ∈ w, c ≠ '}') :
+    (ha : act ∈ Generated.ExpansionTables.suffixSwitchSymbols) (hw : ∀ c ∈ w, c ≠ '}') :
     lexSuffix ((if colon then [':'] else []) ++ act :: (w ++ '}' :: rest))
       = .ok (.switch colon act w, '}' :: rest) := by
   have aux : ∀ v : List Char, (∀ c ∈ v, c ≠ '}') →
@@ -326,19 +328,60 @@ theorem lexSuffix_switch (colon : Bool) (act : Char) (w rest : List Char)
       simp only [List.cons_append, List.takeWhile_cons, List.dropWhile_cons]
       simp [hc, h1, h2]
   have ⟨htw, hdw⟩ := aux w hw
-  have hne : act ≠ ':' := by rcases ha with h | h | h | h <;> subst h <;> decide
-  have hact : (act == '+' || act == '-' || act == '=' || act == '?') = true := by
-    rcases ha with h | h | h | h <;> subst h <;> decide
+  have hne : act ≠ ':' := by
+    intro h; subst h; exact absurd ha (by decide)
   cases colon with
   | true =>
     simp only [if_true, List.singleton_append, lexSuffix, List.head?_cons, List.tail_cons]
-    simp [hact, htw, hdw]
+    simp [ha, htw, hdw]
   | false =>
     simp only [Bool.false_eq_true, if_false, List.nil_append, lexSuffix, List.head?_cons]
     have : (some act == some ':') = false := by simp [hne]
-    simp [this, hact, htw, hdw]
+    simp [this, ha, htw, hdw]
 
 example : lexSuffix ":-a b}c".toList = .ok (.switch true '-' "a b".toList, "}c".toList) := rfl
+
+/-- the tables as the code has them today (re-extracted on every run; an edit of the Rust tables changes
+    these definitions and re-checks every theorem stated over them) -/
+example : Generated.ExpansionTables.suffixSwitchSymbols = ['+', '-', '=', '?'] ∧
+    Generated.ExpansionTables.suffixTrimSymbols = ['#', '%'] ∧
+    Generated.ExpansionTables.lengthPrefixPlain = ['}', '+', '=', ':', '%'] ∧
+    Generated.ExpansionTables.lengthPrefixAmbiguous = ['-', '?', '#'] ∧
+    Generated.ExpansionTables.ifsDefault = [' ', '\t', '\n'] ∧
+    optionShortNames = "aCcenfhilmbsuvx".toList ∧
+    "@*#?-$!0".toList.map specialOfChar =
+      [some .at, some .star, some .num, some .question, some .hyphen, some .dollar, some .bang, some .zero] := by
+  decide
+
+/-- ★ `${name}` for EVERY name (portable name characters, not starting with a digit) and whatever follows the
+    closing brace: the lexer yields the variable of exactly that name, no modifier, in both modes — the general
+    counterpart of the finite table `lex_hash_forms` (a name never triggers the `#` ambiguity, `}` is in none
+    of the generated modifier tables). -/
+theorem lexBraced_name (portable : Bool) (c : Char) (s2 rest : List Char)
+    (hc : isNameChar c = true) (hnd : c.isDigit = false) (hs : ∀ d ∈ s2, isNameChar d = true) :
+    (lexBraced portable (c :: s2 ++ '}' :: rest)).toOption.map (fun b => (b.id, b.param, b.modifier, b.rest)) =
+      some (c :: s2, .var (String.ofList (c :: s2)), .none, rest) := by
+  have hne : c ≠ '#' := by intro h; subst h; revert hc; decide
+  have hpre : hasLengthPrefix (c :: s2 ++ '}' :: rest) = false := by
+    unfold hasLengthPrefix
+    split
+    · rename_i heq; simp at heq; exact absurd heq.1 hne
+    · rfl
+  have ⟨htw, hdw⟩ := takeWhile_dropWhile_name s2 rest hs
+  have hid : typeOfId (c :: s2) = some (.var (String.ofList (c :: s2))) := by
+    unfold typeOfId
+    have h0 : c :: s2 ≠ ['0'] := by
+      intro h; simp at h; have := h.1; subst this; revert hnd; decide
+    simp [h0, hnd]
+  have hsuf : lexSuffix ('}' :: rest) = .ok (.none, '}' :: rest) := by
+    have n1 : ¬ ('}' ∈ Generated.ExpansionTables.suffixSwitchSymbols) := by decide
+    have n2 : ¬ ('}' ∈ Generated.ExpansionTables.suffixTrimSymbols) := by decide
+    simp [lexSuffix, n1, n2]
+  have hpre' : hasLengthPrefix (c :: (s2 ++ '}' :: rest)) = false := hpre
+  simp [lexBraced, hpre', hc, htw, hdw, hid, hsuf, hasNonPortableModifier, Except.toOption]
+
+example : (lexBraced true "foo_1}bar".toList).toOption.map (fun b => (b.id, b.param, b.modifier, b.rest)) =
+    some ("foo_1".toList, .var "foo_1", .none, "bar".toList) := by decide +kernel
 
 /-! ## Quote removal -/
 
@@ -512,53 +555,154 @@ example : resolve
       pos := [], nounset := false, exitStatus := 0, arg0 := [] }
     (.var "x") = some (.scalar ['a', 'b']) := rfl
 
-/-! ## Trims -/
+/-! ## Trims (composed with the C04 model and theorems of yash-fnmatch) -/
 
-/-- `${p#w} ${p##w} ${p%w} ${p%%w}`: the value with the shortest (`#`, `%`) / longest (`##`, `%%`)
-    matching prefix (`#`) / suffix (`%`) removed, and the value itself when no prefix / suffix
-    matches.  (`globMatch` is the model's literal/`?`/`*` matcher standing in for yash-fnmatch.) -/
-theorem trimValue_spec (pat : List PatChar) (side : TrimSide) (len : TrimLen) (v : List Char) :
-    (∃ k, k ≤ v.length ∧ trimMatches pat side v k = true ∧
-        trimValue pat side len v = trimRemoved side v k ∧
-        ∀ j, j ≤ v.length → trimMatches pat side v j = true →
-          (len = .shortest → k ≤ j) ∧ (len = .longest → j ≤ k)) ∨
-    ((∀ j, j ≤ v.length → trimMatches pat side v j = false) ∧ trimValue pat side len v = v) := by
-  rw [trimValue_eq]
-  cases len with
-  | shortest =>
-    have h := find_range (trimMatches pat side v) (v.length + 1)
-    simp only [upTo]
-    cases hf : (List.range (v.length + 1)).find? (trimMatches pat side v) with
-    | some k =>
-      rw [hf] at h
-      refine Or.inl ⟨k, by omega, h.1, rfl, ?_⟩
-      intro j _ hm
-      refine ⟨fun _ => ?_, fun hc => nomatch hc⟩
-      rcases Nat.lt_or_ge j k with hlt | hge
-      · have := h.2.2 j hlt; rw [hm] at this; cases this
-      · exact hge
-    | none =>
-      rw [hf] at h
-      exact Or.inr ⟨fun j hj => h j (by omega), rfl⟩
-  | longest =>
-    have h := find_range_rev (trimMatches pat side v) (v.length + 1)
-    simp only [upTo]
-    cases hf : (List.range (v.length + 1)).reverse.find? (trimMatches pat side v) with
-    | some k =>
-      rw [hf] at h
-      refine Or.inl ⟨k, by omega, h.1, rfl, ?_⟩
-      intro j hj hm
-      refine ⟨(fun hc => nomatch hc), fun _ => ?_⟩
-      rcases Nat.lt_or_ge k j with hlt | hge
-      · have := h.2.2 j hlt (by omega); rw [hm] at this; cases this
-      · exact hge
-    | none =>
-      rw [hf] at h
-      exact Or.inr ⟨fun j hj => h j (by omega), rfl⟩
+/-- ★ `trim::apply` — `Pattern::parse_with_config`, regex translation, `find` / `rfind`, literal fast path,
+    fallback for a pattern that does not compile, scalar and array values (the C04 model, run by the driver) —
+    is the Spec's `posixTrim` for EVERY pattern-character string and value: inside the notation POSIX defines
+    the removal of the shortest / longest prefix / suffix that matches in the glob language of the grammar
+    (next theorem); outside it (no hypothesis needed) the documented fallback. -/
+theorem trim_eq_posix (pcs : List PatChar) (side : TrimSide) (len : TrimLen) (val : Value) :
+    trimApply pcs side len val = posixTrim pcs side len val :=
+  trimApply_eq_posixTrim pcs side len val
 
-example : trimValue [.normal 'a', .normal '*'] .prefix .longest "abab".toList = [] ∧
-    trimValue [.normal 'a', .normal '*'] .prefix .shortest "abab".toList = "bab".toList ∧
-    trimValue [.normal '*', .normal 'b'] .suffix .shortest "abab".toList = "aba".toList := by decide
+/-- ★ `${p#w} ${p##w} ${p%w} ${p%%w}` in the literal sense of XCU 2.6.2, against POSIX pattern matching
+    (`Fnmatch.posixMatch`: the XCU 2.13 grammar with bracket expressions, ranges, classes, complements, quoted
+    characters, then the glob language): for a pattern inside the defined notation the result is the value
+    cut at a split point whose removed part matches, the removed part being the shortest (`#`, `%`) / longest
+    (`##`, `%%`) among ALL matching prefixes (`#`) / suffixes (`%`); and the value itself exactly when no
+    prefix / suffix matches. -/
+theorem trim_removes_shortest_longest (pcs : List PatChar) (side : TrimSide) (len : TrimLen) (v : List Char)
+    (h : patternInPosix side pcs = true) :
+    (∃ i, i ≤ v.length ∧ Fnmatch.posixMatch pcs (trimRemovedPart side v i) = true ∧
+        Fnmatch.trimApply side len pcs v = trimKeptPart side v i ∧
+        ∀ j, j ≤ v.length → Fnmatch.posixMatch pcs (trimRemovedPart side v j) = true →
+          (len = .shortest → trimRemovedLen side v i ≤ trimRemovedLen side v j) ∧
+          (len = .longest → trimRemovedLen side v j ≤ trimRemovedLen side v i)) ∨
+    ((∀ j, j ≤ v.length → Fnmatch.posixMatch pcs (trimRemovedPart side v j) = false) ∧
+      Fnmatch.trimApply side len pcs v = v) := by
+  rw [trimString_eq_posix, posixTrimString, if_pos h]
+  unfold Fnmatch.posixMatch
+  generalize Fnmatch.specParse pcs = ast
+  have hcontra : ∀ {b : Bool}, b = true → b = false → False := by intro b h1 h2; rw [h1] at h2; cases h2
+  cases side <;> cases len <;>
+    simp only [Fnmatch.specTrim, trimRemovedPart, trimKeptPart, trimRemovedLen]
+  · -- `#`: least matching prefix length
+    rcases (fnmatch_specTrim_declarative (fun k => Fnmatch.globMatch ast (v.take k)) v.length).1 with
+      ⟨hn, hall⟩ | ⟨k, hk, hle, hp, hmin⟩
+    · rw [hn]; exact Or.inr ⟨hall, rfl⟩
+    · rw [hk]
+      refine Or.inl ⟨k, hle, hp, rfl, fun j _ hm => ?_⟩
+      have : k ≤ j := by
+        rcases Nat.lt_or_ge j k with hlt | hge
+        · exact (hcontra hm (hmin j hlt)).elim
+        · exact hge
+      simp [this]
+  · -- `##`: greatest matching prefix length
+    rcases (fnmatch_specTrim_declarative (fun k => Fnmatch.globMatch ast (v.take k)) v.length).2 with
+      ⟨hn, hall⟩ | ⟨k, hk, hle, hp, hmax⟩
+    · rw [hn]; exact Or.inr ⟨hall, rfl⟩
+    · rw [hk]
+      refine Or.inl ⟨k, hle, hp, rfl, fun j hj hm => ?_⟩
+      have : j ≤ k := by
+        rcases Nat.lt_or_ge k j with hlt | hge
+        · exact (hcontra hm (hmax j hlt hj)).elim
+        · exact hge
+      simp [this]
+  · -- `%`: greatest matching suffix start
+    rcases (fnmatch_specTrim_declarative (fun k => Fnmatch.globMatch ast (v.drop k)) v.length).2 with
+      ⟨hn, hall⟩ | ⟨k, hk, hle, hp, hmax⟩
+    · rw [hn]; exact Or.inr ⟨hall, rfl⟩
+    · rw [hk]
+      refine Or.inl ⟨k, hle, hp, rfl, fun j hj hm => ?_⟩
+      have : j ≤ k := by
+        rcases Nat.lt_or_ge k j with hlt | hge
+        · exact (hcontra hm (hmax j hlt hj)).elim
+        · exact hge
+      have : v.length - k ≤ v.length - j := by omega
+      simp [this]
+  · -- `%%`: least matching suffix start
+    rcases (fnmatch_specTrim_declarative (fun k => Fnmatch.globMatch ast (v.drop k)) v.length).1 with
+      ⟨hn, hall⟩ | ⟨k, hk, hle, hp, hmin⟩
+    · rw [hn]; exact Or.inr ⟨hall, rfl⟩
+    · rw [hk]
+      refine Or.inl ⟨k, hle, hp, rfl, fun j _ hm => ?_⟩
+      have : k ≤ j := by
+        rcases Nat.lt_or_ge j k with hlt | hge
+        · exact (hcontra hm (hmin j hlt)).elim
+        · exact hge
+      have : v.length - j ≤ v.length - k := by omega
+      simp [this]
+
+/-- non-vacuity, with a bracket expression: `[a-c]*` is inside the defined notation; `##` removes all of
+    `bxbx`, `#` only `b`; `%[!x]` removes nothing from `bx`, `%%[[:alpha:]]` removes the `x` -/
+example :
+    let p1 : List PatChar := [.normal '[', .normal 'a', .normal '-', .normal 'c', .normal ']', .normal '*']
+    let p2 : List PatChar := [.normal '[', .normal '!', .normal 'x', .normal ']']
+    let p3 : List PatChar := "[[:alpha:]]".toList.map .normal
+    patternInPosix .prefix p1 = true ∧ patternInPosix .suffix p2 = true ∧ patternInPosix .suffix p3 = true ∧
+    Fnmatch.trimApply .prefix .longest p1 "bxbx".toList = [] ∧
+    Fnmatch.trimApply .prefix .shortest p1 "bxbx".toList = "xbx".toList ∧
+    Fnmatch.trimApply .suffix .shortest p2 "bx".toList = "bx".toList ∧
+    Fnmatch.trimApply .suffix .longest p3 "bx".toList = "b".toList := by decide +kernel
+
+/-- outside the defined notation the fallback branch of the Spec is taken: `[z-a]` (inverted range) does not
+    compile and leaves the value unchanged; `[a[.ab.]]` (multi-character collating element, prefix form) -/
+example :
+    patternInPosix .prefix ("[z-a]".toList.map .normal) = false ∧
+    Fnmatch.trimApply .prefix .shortest ("[z-a]".toList.map .normal) "za".toList = "za".toList ∧
+    patternInPosix .prefix ("[a[.ab.]]".toList.map .normal) = false ∧
+    patternInPosix .suffix ("[a[.ab.]]".toList.map .normal) = true := by decide +kernel
+
+/-- ★ a syntactically described class inside the defined notation: a pattern without an unquoted `[` —
+    ordinary characters, quoted characters of any kind (also quoted `[`, `*`, `?`), `?` and `*` — for both
+    sides; so for these the two theorems above hold without any semantic hypothesis.  (The driver evaluates
+    `patternInPosix` on every trim of every case and reports it; bracket patterns are decided per case.) -/
+theorem bracketFree_patterns_in_posix (pcs : List PatChar) (h : bracketFree pcs = true) (side : TrimSide) :
+    patternInPosix side pcs = true :=
+  bracketFree_inPosix pcs h side
+
+example : bracketFree [.normal 'a', .literal '[', .normal '*', .normal '?'] = true := by decide
+
+/-- ★ the pattern characters: in the expanded pattern word a quoting character (`'`, `"`, `\`) is dropped, a
+    quoted character is a literal pattern character and any other one keeps its special meaning — and the
+    model's `apply_escapes` / `to_pattern_chars` are C04's (same functions on the projection of the
+    attributed characters), so the trim patterns of this property and the `case` patterns of C04 are read by
+    the same kernel-checked chain. -/
+theorem pattern_chars_compose (cs : List AttrChar) :
+    toPatternChars (applyEscapes cs) =
+      Fnmatch.toPatternChars (Fnmatch.applyEscapes (cs.map fun c => ⟨c.value, c.isQuoted, c.isQuoting⟩)) :=
+  patternChars_eq_fnmatch cs
+
+/-- ★ the trim inside the expansion: `${x<op>w}` on a set scalar variable yields the one field `posixTrim`
+    describes, the pattern being the expansion of `w` joined, escapes applied; in every context, for every
+    pattern word. -/
+theorem trim_expansion (env : Env) (ws : Bool) (name : String) (v : List Char) (side : TrimSide) (len : TrimLen)
+    (w : Word) (hv : env.getValue name = some (.scalar v)) :
+    posixParam env ws (.var name) (resolve env (.var name)) (.trim side len w) =
+      match posixWord env ws w with
+      | (env', .error e) => (env', .error e)
+      | (env', .ok fs) =>
+        (env', .ok [toField (posixTrimString (toPatternChars (applyEscapes (joinBySep env' fs))) side len v)]) := by
+  simp only [resolve, hv, posixParam]
+  rcases posixWord env ws w with ⟨env', r⟩
+  cases r with
+  | error e => simp
+  | ok fs => simp [paramFields, valueFields, posixTrim]
+
+/-- non-vacuity, end to end through the function the driver runs: `${x%%[.:]*}` with `x=a.b:c` is the one field
+    `a`; `${x#*[.:]}` is `b:c`; `"${@#[!a]}"` with the parameters `ba` `ab` gives `a` and `ab` -/
+example :
+    let env : Env := { vars := [("x", { value := some (.scalar "a.b:c".toList), readOnly := false })],
+                       pos := ["ba".toList, "ab".toList], nounset := false, exitStatus := 0, arg0 := [] }
+    let lits := fun (s : String) => s.toList.foldr (fun c w => Word.cons (.unq (.lit c)) w) Word.nil
+    env.getValue "x" = some (.scalar "a.b:c".toList) ∧
+    (expandWordMultiple env (.cons (.unq (.param (.var "x") (.trim .suffix .longest (lits "[.:]*")))) .nil)).2.toOption
+      = some ["a".toList] ∧
+    (expandWordMultiple env (.cons (.unq (.param (.var "x") (.trim .prefix .shortest (lits "*[.:]")))) .nil)).2.toOption
+      = some ["b:c".toList] ∧
+    (expandWordMultiple env (.cons (.dq (.cons (.param .at (.trim .prefix .shortest (lits "[!a]"))) .nil)) .nil)).2.toOption
+      = some ["a".toList, "ab".toList] := by decide +kernel
 
 /-! ## `${p=w}` / `${p:=w}` assign to the parameter -/
 
@@ -776,6 +920,69 @@ example :
 theorem read_eq_specRead (ifs : Ifs) (text : List AttrChar) (nBefore : Nat) :
     readAssign ifs text nBefore = specRead ifs text nBefore :=
   readAssign_eq_specRead ifs text nBefore
+
+/-- ★ `input::read` — one pass over the input with the delimiter test first, a backslash consuming the next
+    character, backslash–newline skipped — is the logical line of XCU `read`: lex the WHOLE input into items
+    (ordinary character, escaped character, line continuation, dangling backslash, delimiter), keep the items
+    before the first delimiter, let every escaped character be quoted and its backslash quoting; the exit
+    status's "delimiter found" is "the input has a delimiter item".  For every input, delimiter (`-d`) and
+    both settings of `-r`. -/
+theorem readInput_eq_specReadInput_all (raw : Bool) (delim : Char) (input : List Char) :
+    readInput raw delim input = specReadInput raw delim input :=
+  readInput_eq_specReadInput raw delim input
+
+/-- ★ with `-r` the line is the input up to the first delimiter, every character ordinary (a backslash too) -/
+theorem read_raw_line (delim : Char) (input : List Char) :
+    readInput true delim input =
+      ((input.takeWhile (· != delim)).map plainChar, input.contains delim) := by
+  rw [readInput_eq_specReadInput, specReadInput, readItems_raw]
+  induction input with
+  | nil => rfl
+  | cons c t ih =>
+    simp only [Prod.mk.injEq] at ih
+    by_cases hd : c = delim
+    · subst hd; simp [List.takeWhile]
+    · have hd' : (c == delim) = false := by simpa using hd
+      have hd'' : (c != delim) = true := by simpa using hd
+      have h1 : (decide (RItem.plain c ≠ RItem.delimiter)) = true := by simp
+      have h2 : (RItem.delimiter == RItem.plain c) = false := by simp
+      have h3 : (delim == c) = false := by
+        rw [beq_eq_false_iff_ne]; exact fun h => hd h.symm
+      simp only [List.map_cons, hd', List.takeWhile_cons, hd'', if_true, Bool.false_eq_true, if_false, h1,
+        List.flatMap_cons, RItem.chars, List.singleton_append, List.contains_cons, h2, h3, Bool.false_or,
+        Prod.mk.injEq, List.cons.injEq, true_and]
+      exact ih
+
+example : readInput true '\n' "a\\ b\nc".toList = ("a\\ b".toList.map plainChar, true) := by decide +kernel
+
+/-- ★ what the variables can receive: quote removal of the logical line is the line with every continuation
+    and every escaping backslash removed and every escaped character kept literally -/
+theorem read_line_value (raw : Bool) (delim : Char) (input : List Char) :
+    removeQuotesAndStrip (readInput raw delim input).1 =
+      ((readItems raw delim input).takeWhile (· ≠ .delimiter)).flatMap RItem.value := by
+  rw [readInput_eq_specReadInput, specReadInput]
+  exact removeQuotes_items _
+
+/-- `a\<newline>b\ c\\` then newline: one logical line `ab c\`, the escaped space and backslash literal -/
+example : removeQuotesAndStrip (readInput false '\n' "a\\\nb\\ c\\\\\nrest".toList).1 = "ab c\\".toList ∧
+    (readInput false '\n' "a\\\nb\\ c\\\\\nrest".toList).2 = true ∧
+    (readInput false ':' "a\\:b:c".toList) =
+      ([plainChar 'a', readQuoting '\\', readQuoted ':', plainChar 'b'], true) := by decide +kernel
+
+/-- ★ a backslash-escaped character is never a field separator and neither is its backslash — whatever IFS
+    is; together with `quoted_never_split` / `read_eq_specRead`: `read` never splits at an escaped character -/
+theorem read_escaped_never_separator (ifs : Ifs) (c : Char) :
+    ifs.classifyAttr (readQuoted c) = .non ∧ ifs.classifyAttr (readQuoting '\\') = .non := by
+  simp [Ifs.classifyAttr, readQuoted, readQuoting]
+
+/-- ★ end to end for `read [-r] [-d c] v1 … vn`: what the driver computes (`input::read`, then
+    `assigning::assign`) is the Spec column (logical line by items, XCU `read` on the recursive splitter) -/
+theorem read_end_to_end (ifs : Ifs) (raw : Bool) (delim : Char) (input : List Char) (nBefore : Nat) :
+    readAssign ifs (readInput raw delim input).1 nBefore =
+      specRead ifs (specReadInput raw delim input).1 nBefore ∧
+    (readInput raw delim input).2 = (specReadInput raw delim input).2 := by
+  rw [readInput_eq_specReadInput]
+  exact ⟨readAssign_eq_specRead ifs _ nBefore, rfl⟩
 
 /-- "`read` splits by the same IFS rules": variable `k` (not the last) receives field `k` of the very
     splitting that word expansion uses (`split_into`), quote-removed — empty if there is none … -/
